@@ -125,7 +125,7 @@ def param_decl(defn, form):
 
 
 def build(defn, rng=None, style=None, sform="list", pform="list", backend="lambda", routes=None,
-          hows=None):
+          hows=None, on_step=None):
     """Construct the model.  Returns (model, events_in_model_order, odes_in_model_order):
     the abstract events / ode terms in the order in which the real model holds them, which is
     the order the specification's definition record must have."""
@@ -169,10 +169,14 @@ def build(defn, rng=None, style=None, sform="list", pform="list", backend="lambd
     if derived:
         kw["derived_param"] = derived
     m = SimulateOde(state=state_decl(defn, sform), param=param_decl(defn, pform), **kw)
-    for name, obj in later:
-        getattr(m, name)(obj)
     if backend == "lambda":
         m._SC = ode_utils.compileCode(backend="lambda")
+    if on_step is not None and later:
+        on_step(m, len(ctor["event"]) + len(ctor["transition"]) + len(ctor["birth_death"]))
+    for name, obj in later:
+        getattr(m, name)(obj)
+        if on_step is not None and obj is not later[-1][1]:
+            on_step(m, len(m.event_list))
     events = ev_ctor["event"] + ev_ctor["transition"] + ev_ctor["birth_death"] + ev_later
     odes = ode_ctor + ode_later
     return m, events, odes
